@@ -11,7 +11,7 @@ from .. import graphcheck
 
 ASPECTS = ("flow", "err", "starts")
 CHECKS = ("sem", "edges", "nodup")
-SIGS = ("semantics", "edge-delivery", "edge-altered", "duplicated")
+SIGS = ("semantics", "edge-delivery", "edge-altered", "duplicated", "plumbing")
 
 CORPUS = [
     # slice with start % step != 0 (repaired defect ee71f4f)
